@@ -18,7 +18,7 @@ import instances
 import lib
 
 PID = "C11"
-PROPS = ["Aldy.Props.C11", "Aldy.Props.C11Order"]
+PROPS = ["Aldy.Props.C11", "Aldy.Props.C11Order", "Aldy.Props.C11Tandem"]
 TRUSTED_EXTRA = ["natsort (the order clauses only; its key function is compared with the model on every name)"]
 ASSUMPTIONS = ["major allele names contain at least one character before any '#' (empty names make the code raise IndexError)"]
 
